@@ -1,0 +1,279 @@
+//go:build verif
+
+package kessoku
+
+import (
+	"go/types"
+
+	"github.com/mazrean/kessoku/internal/pkg/collection"
+
+	vs "github.com/mazrean/kessoku/internal/verifspec"
+)
+
+// ---------------------------------------------------------------------------
+// C09: NewGraph, first two passes - who supplies which type. A second, independent contract of NewGraph (aspect
+// "suppliers"); the graph-shape contract (graphWF) stays assumed.
+// ---------------------------------------------------------------------------
+
+// ghost: the supplier of a type key, mirrored next to the two places that register one
+var gSupplier = map[string]*ProviderSpec{}
+
+// ghost: where a Struct declaration sits in NewGraph's list of deferred struct providers
+var gStructPos = map[*ProviderSpec]int{}
+
+// ghost: the provider the first pass is looking at (index into build.Providers)
+var gProvIdx int
+
+// stands for the type of the same name declared inside NewGraph, which a contract file cannot name (kvc checks that
+// the two have the same fields; field heaps are keyed by package, type and field name)
+type fnProvider struct {
+	provider    *ProviderSpec
+	returnIndex int
+}
+
+// what the parser hands over (ASSUMED of findInjectDirectives, evaluated on every declaration decl_bounded runs)
+func providerInputWF(p *ProviderSpec) bool {
+	return p != nil && vs.IsAllocated(p) &&
+		vs.Forall(len(p.StructFields), func(k int) bool { return p.StructFields[k] != nil && p.StructFields[k].Type != nil })
+}
+
+func buildInputWF(b *BuildDirective) bool {
+	return b != nil && b.Return != nil &&
+		vs.Forall(len(b.Providers), func(i int) bool { return providerInputWF(b.Providers[i]) })
+}
+
+// tableWF: the table of suppliers holds non-nil entries and the ghost mirror agrees with it
+func tableWF(m map[string]*fnProvider) bool {
+	return m != nil && vs.ForallString(func(k string) bool {
+		return vs.Has(m, k) == (gSupplier[k] != nil) &&
+			vs.Implies(vs.Has(m, k), m[k] != nil && vs.IsAllocated(m[k]) && m[k].provider == gSupplier[k] && vs.IsAllocated(m[k].provider))
+	})
+}
+
+// suppliesGroupsBelow: p is the registered supplier of every type in its first g result groups
+func suppliesGroupsBelow(p *ProviderSpec, g int) bool {
+	return vs.Forall(g, func(a int) bool {
+		return vs.Forall(len(p.Provides[a]), func(b int) bool { return gSupplier[p.Provides[a][b].String()] == p })
+	})
+}
+
+func suppliesAll(p *ProviderSpec) bool { return suppliesGroupsBelow(p, len(p.Provides)) }
+
+// fieldProviderOf: p is a field accessor made by the struct expansion, registered as the supplier of its field type,
+// and its struct has a supplier
+func fieldProviderRegistered(p *ProviderSpec) bool {
+	return p != nil && p.Type == ProviderTypeFieldAccess && len(p.Provides) == 1 && len(p.Provides[0]) == 1 &&
+		gSupplier[p.Provides[0][0].String()] == p && gSupplier[p.StructType.String()] != nil
+}
+
+// C09 (refusal): a declaration NewGraph accepts has exactly one supplier per type - every function, value and bound
+// provider is the registered supplier of every type it provides, every expanded field's accessor is the registered
+// supplier of the field type (so no two suppliers share a type: the register is a function of the type), and every
+// Struct declaration has a supplier for its struct.
+//
+//kvc:contract NewGraph@suppliers
+func contract_NewGraph_suppliers(metaData *MetaData, build *BuildDirective, varPool *VarPool) (result *Graph, err error) {
+	vs.Requires(metaData != nil && metaData.Imports != nil && poolInv(varPool) && buildInputWF(build))
+	vs.Ensures("declared_providers_kept", vs.Implies(err == nil, len(build.Providers) >= vs.Old(len(build.Providers)) &&
+		vs.Forall(vs.Old(len(build.Providers)), func(i int) bool { return build.Providers[i] == vs.Old(build.Providers)[i] })))
+	vs.Ensures("accepted_means_one_supplier_per_provided_type", vs.Implies(err == nil,
+		vs.Forall(vs.Old(len(build.Providers)), func(i int) bool {
+			return vs.Implies(build.Providers[i].Type != ProviderTypeStruct, suppliesAll(build.Providers[i]))
+		})))
+	vs.Ensures("accepted_means_expanded_fields_have_one_supplier", vs.Implies(err == nil,
+		vs.ForallRange(vs.Old(len(build.Providers)), len(build.Providers), func(i int) bool { return fieldProviderRegistered(build.Providers[i]) })))
+	vs.Ensures("accepted_means_struct_has_a_source", vs.Implies(err == nil,
+		vs.Forall(vs.Old(len(build.Providers)), func(i int) bool {
+			return vs.Implies(build.Providers[i].Type == ProviderTypeStruct, gSupplier[build.Providers[i].StructType.String()] != nil)
+		})))
+	// ... which is the property as stated: no two different suppliers (functions, values, bindings, expanded fields)
+	// of an accepted declaration share a type
+	vs.Ensures("no_two_suppliers_share_a_type", vs.Implies(err == nil,
+		vs.Forall(len(build.Providers), func(i int) bool {
+			return vs.Forall(len(build.Providers), func(j int) bool {
+				return vs.Implies(build.Providers[i].Type != ProviderTypeStruct && build.Providers[j].Type != ProviderTypeStruct,
+					vs.Forall(len(build.Providers[i].Provides), func(a int) bool {
+						return vs.Forall(len(build.Providers[i].Provides[a]), func(b int) bool {
+							return vs.Forall(len(build.Providers[j].Provides), func(c int) bool {
+								return vs.Forall(len(build.Providers[j].Provides[c]), func(d int) bool {
+									return vs.Implies(build.Providers[i].Provides[a][b].String() == build.Providers[j].Provides[c][d].String(),
+										build.Providers[i] == build.Providers[j])
+								})
+							})
+						})
+					}))
+			})
+		})))
+	vs.ModifiesAll()
+	vs.Allocates()
+	return
+}
+
+//kvc:ghost NewGraph@suppliers before "fnProviderMap := make(map[string]*fnProvider)"
+func ghostSuppliersStart() {
+	gSupplier = map[string]*ProviderSpec{}
+	gStructPos = map[*ProviderSpec]int{}
+}
+
+//kvc:ghost NewGraph@suppliers before "if provider.Type == ProviderTypeStruct"
+func ghostProvIdx(kvcIdx int) { gProvIdx = kvcIdx }
+
+//kvc:ghost NewGraph@suppliers after "structProviders = append(structProviders, provider)"
+func ghostStructPos(provider *ProviderSpec, structProviders []*ProviderSpec) {
+	gStructPos[provider] = len(structProviders) - 1
+}
+
+//kvc:ghost NewGraph@suppliers after "fnProviderMap[key] = &fnProvider{"
+func ghostSupplierFn(key string, provider *ProviderSpec) { gSupplier[key] = provider }
+
+//kvc:ghost NewGraph@suppliers after "fnProviderMap[fieldTypeKey] = &fnProvider{"
+func ghostSupplierField(fieldTypeKey string, fieldProvider *ProviderSpec) {
+	gSupplier[fieldTypeKey] = fieldProvider
+}
+
+// first pass, over the declared providers
+func firstPassDone(build *BuildDirective, structProviders []*ProviderSpec, n int) bool {
+	return vs.Forall(n, func(j int) bool {
+		return vs.Implies(build.Providers[j].Type != ProviderTypeStruct, suppliesAll(build.Providers[j])) &&
+			vs.Implies(build.Providers[j].Type == ProviderTypeStruct,
+				0 <= gStructPos[build.Providers[j]] && gStructPos[build.Providers[j]] < len(structProviders) &&
+					structProviders[gStructPos[build.Providers[j]]] == build.Providers[j])
+	})
+}
+
+//kvc:loop NewGraph@suppliers "for _, provider := range build.Providers"
+func inv_NewGraph_pass1(build *BuildDirective, fnProviderMap map[string]*fnProvider, structProviders []*ProviderSpec, kvcIdx int) {
+	vs.Invariant("input", buildInputWF(build))
+	vs.Invariant("table", tableWF(fnProviderMap))
+	vs.Invariant("done_so_far", firstPassDone(build, structProviders, kvcIdx))
+	vs.Invariant("struct_list", vs.Forall(len(structProviders), func(k int) bool { return providerInputWF(structProviders[k]) }))
+}
+
+//kvc:loop NewGraph@suppliers "for groupIndex, typeGroup := range provider.Provides"
+func inv_NewGraph_pass1_groups(build *BuildDirective, fnProviderMap map[string]*fnProvider, structProviders []*ProviderSpec, provider *ProviderSpec, kvcIdx int) {
+	vs.Invariant("input", buildInputWF(build))
+	vs.Invariant("table", tableWF(fnProviderMap))
+	vs.Invariant("current_idx", 0 <= gProvIdx && gProvIdx < len(build.Providers))
+	vs.Invariant("current_is", build.Providers[gProvIdx] == provider)
+	vs.Invariant("current_kind", provider.Type != ProviderTypeStruct)
+	vs.Invariant("done_so_far", firstPassDone(build, structProviders, gProvIdx))
+	vs.Invariant("groups_so_far", suppliesGroupsBelow(provider, kvcIdx))
+}
+
+//kvc:loop NewGraph@suppliers "for typeIndex, t := range typeGroup"
+func inv_NewGraph_pass1_types(build *BuildDirective, fnProviderMap map[string]*fnProvider, structProviders []*ProviderSpec, provider *ProviderSpec, groupIndex int, typeGroup []types.Type, kvcIdx int) {
+	vs.Invariant("input", buildInputWF(build))
+	vs.Invariant("table", tableWF(fnProviderMap))
+	vs.Invariant("current_idx", 0 <= gProvIdx && gProvIdx < len(build.Providers))
+	vs.Invariant("current_is", build.Providers[gProvIdx] == provider)
+	vs.Invariant("current_kind", provider.Type != ProviderTypeStruct)
+	vs.Invariant("current_group", 0 <= groupIndex && groupIndex < len(provider.Provides) && vs.SameSlice(typeGroup, provider.Provides[groupIndex]))
+	vs.Invariant("done_so_far", firstPassDone(build, structProviders, gProvIdx))
+	vs.Invariant("groups_so_far", suppliesGroupsBelow(provider, groupIndex))
+	vs.Invariant("types_so_far", vs.Forall(kvcIdx, func(b int) bool { return gSupplier[typeGroup[b].String()] == provider }))
+}
+
+// A missing dependency becomes a fresh argument node; only the name pool and the import table are touched.
+//
+//kvc:contract (*Graph).autoAddMissingDependencies
+func contract_Graph_autoAddMissingDependencies(g *Graph, metaData *MetaData, t types.Type, varPool *VarPool) (result *node, err error) {
+	vs.Requires(metaData != nil && metaData.Imports != nil && poolInv(varPool))
+	vs.Ensures("node_or_error", (err == nil) == (result != nil))
+	vs.Ensures("fresh_argument_node", vs.Implies(err == nil, !vs.Old(vs.IsAllocated(result)) && result.providerSpec == nil && result.arg != nil &&
+		result.arg.Type == t && result.arg.ASTTypeExpr != nil))
+	vs.Ensures("pool_inv", poolInv(varPool))
+	vs.Ensures("imports_stay_nonnil", allImportTablesStayNonNil())
+	vs.Modifies(varPool.vars, metaData.Imports)
+	vs.Allocates()
+	return
+}
+
+// ASSUMED (internal/pkg/collection, a list-backed FIFO, is outside the verified set): queue operations touch
+// nothing but the queue itself.
+//
+//kvc:contract collection.NewQueue
+func contract_collection_NewQueue() (result *collection.Queue[*node]) {
+	vs.Ensures("fresh_queue", result != nil && !vs.Old(vs.IsAllocated(result)))
+	vs.Modifies()
+	vs.Allocates()
+	return
+}
+
+//kvc:contract (*collection.Queue).Push
+func contract_collection_Queue_Push(q *collection.Queue[*node], v *node) {
+	vs.Requires(q != nil)
+	vs.Modifies()
+	vs.Allocates()
+	return
+}
+
+// second pass, over the deferred Struct declarations
+
+func providersKept(build *BuildDirective, old []*ProviderSpec) bool {
+	return len(build.Providers) >= len(old) && vs.Forall(len(old), func(i int) bool { return build.Providers[i] == old[i] })
+}
+
+func fieldsRegistered(build *BuildDirective, from int) bool {
+	return vs.ForallRange(from, len(build.Providers), func(i int) bool { return fieldProviderRegistered(build.Providers[i]) })
+}
+
+func sourcesBelow(structProviders []*ProviderSpec, n int) bool {
+	return vs.Forall(n, func(s int) bool { return gSupplier[structProviders[s].StructType.String()] != nil })
+}
+
+//kvc:loop NewGraph@suppliers "for _, structProvider := range structProviders"
+func inv_NewGraph_pass2(build *BuildDirective, fnProviderMap map[string]*fnProvider, structProviders []*ProviderSpec, kvcIdx int) {
+	vs.Invariant("input", buildInputWF(build))
+	vs.Invariant("table", tableWF(fnProviderMap))
+	vs.Invariant("struct_list", vs.Forall(len(structProviders), func(k int) bool { return providerInputWF(structProviders[k]) }))
+	vs.Invariant("declared_kept", providersKept(build, vs.Old(build.Providers)))
+	vs.Invariant("first_pass", firstPassDone(build, structProviders, vs.Old(len(build.Providers))))
+	vs.Invariant("fields_registered", fieldsRegistered(build, vs.Old(len(build.Providers))))
+	vs.Invariant("sources", sourcesBelow(structProviders, kvcIdx))
+}
+
+//kvc:loop NewGraph@suppliers "for _, field := range structProvider.StructFields"
+func inv_NewGraph_pass2_fields(build *BuildDirective, fnProviderMap map[string]*fnProvider, structProviders []*ProviderSpec, structProvider *ProviderSpec, kvcOuterIdx int) {
+	vs.Invariant("input", buildInputWF(build))
+	vs.Invariant("table", tableWF(fnProviderMap))
+	vs.Invariant("struct_list", vs.Forall(len(structProviders), func(k int) bool { return providerInputWF(structProviders[k]) }))
+	vs.Invariant("declared_kept", providersKept(build, vs.Old(build.Providers)))
+	vs.Invariant("first_pass", firstPassDone(build, structProviders, vs.Old(len(build.Providers))))
+	vs.Invariant("fields_registered", fieldsRegistered(build, vs.Old(len(build.Providers))))
+	vs.Invariant("sources", sourcesBelow(structProviders, kvcOuterIdx))
+	vs.Invariant("current", providerInputWF(structProvider) && gSupplier[structProvider.StructType.String()] != nil)
+}
+
+// the breadth-first construction: only what the calls made there need (the shape of the graph is not claimed here)
+
+//kvc:ghost NewGraph@suppliers before "if n1 == nil || visited[n1]"
+func ghostQueueYieldsPushedNodes(n1 *node) {
+	// ASSUMED of collection.Queue: it yields only what was pushed, and only allocated nodes (or nil) are pushed
+	vs.Assume(n1 == nil || vs.IsAllocated(n1))
+}
+
+// edgesWellFormed for every reference, allocated or not (the map has no other keys): stays true across allocation
+func edgesWellFormedEverywhere(g *Graph) bool {
+	return g != nil && g.edges != nil && vs.ForallRef(func(u *node) bool {
+		return vs.Forall(len(g.edges[u]), func(j int) bool { return g.edges[u][j] != nil && vs.IsAllocated(g.edges[u][j].node) })
+	})
+}
+
+//kvc:loop NewGraph@suppliers "for n1 := range queue.Iter"
+func inv_NewGraph_bfs(metaData *MetaData, varPool *VarPool, graph *Graph, fnProviderMap map[string]*fnProvider) {
+	vs.Invariant("table", tableWF(fnProviderMap))
+	vs.Invariant("env", metaData != nil && metaData.Imports != nil && poolInv(varPool))
+	vs.Invariant("maps", graph.edges != nil && graph.reverseEdges != nil)
+	vs.Invariant("edges", edgesWellFormedEverywhere(graph))
+	vs.Invariant("nodes", graphNodesAllocated(graph))
+}
+
+//kvc:loop NewGraph@suppliers "for i, t := range n1.providerSpec.Requires"
+func inv_NewGraph_bfs_requires(metaData *MetaData, varPool *VarPool, graph *Graph, fnProviderMap map[string]*fnProvider, n1 *node) {
+	vs.Invariant("table", tableWF(fnProviderMap))
+	vs.Invariant("env", metaData != nil && metaData.Imports != nil && poolInv(varPool))
+	vs.Invariant("maps", graph.edges != nil && graph.reverseEdges != nil)
+	vs.Invariant("edges", edgesWellFormedEverywhere(graph))
+	vs.Invariant("nodes", graphNodesAllocated(graph))
+	vs.Invariant("current", vs.IsAllocated(n1) && n1.providerSpec != nil)
+}
